@@ -8,6 +8,7 @@ Decided
   U2  every amplitude output carries the unit factor (spikes.amps, templates.amps, clusters.amps); clusters.peakToTrough is in
       milliseconds with NaN at the empty ids; clusters.depths = y coordinate of the peak channel with NaN at the empty ids;
       spikes.depths = feature-weighted depths, or the depth of the spike's cluster when no features exist
+  M1  prerequisite: the model-side construction of the exported cluster waveforms (obligations C08.A0 / A2 / A3) holds
   S1  channels.rawInd: the offset subtracted for probe k equals, inductively, the offset Merger.write_channel_data added
       (same recurrence, same start), probes visited in increasing label order
 Not decided: value equality, tie order among equidistant channels.
@@ -30,6 +31,112 @@ EXPLANATION = ('shape engine over the EphysAlfCreator methods with the model met
                'comparing the offset recurrences as normal forms (inductive step)')
 TRUSTED = ['python ast', 'NumPy transfer rules of vlib/shape.py', 'normal forms of vlib/sym.py', 'attribute signatures']
 ASSUMPTIONS = ['dense templates', 'probe labels of a merged dataset are 0..k-1 in input order (C12.S3)']
+
+
+def s1_rawind(ctx, rule='C14.S1'):
+    """channels.rawInd: the offset subtracted for probe k equals, inductively, the offset Merger.write_channel_data added (both start at 0).
+    Shared with C13 (an unmerged dataset must export its own channel map, which is what the loader reads back)."""
+    repo = ctx.repo
+    cls = repo.cls(ALF, 'EphysAlfCreator')
+    co = repo.lookup_method(cls, 'make_channel_objects')
+    mg = repo.func(MG, 'Merger.write_channel_data')
+    # merger recurrence
+    lp = mg.nodes(ast.For)[0]
+    ind, arrn = (unparse(x) for x in lp.target.elts)
+    me = T('self')
+    ARR, O = T('MK'), T('OK')
+    offs = [unparse(a.targets[0]) for a in mg.body() if isinstance(a, ast.Assign) and const_value(a.value) == 0 and isinstance(a.targets[0], ast.Name)]
+    env = {mg.params[0]: me, arrn: ARR, ind: T('k')}
+    for o in offs:
+        env[o] = T('acc', o)
+    for n_ in [a for a in mg.body() if isinstance(a, ast.Assign) and isinstance(a.value, ast.List) and isinstance(a.targets[0], ast.Name)]:
+        env[unparse(n_.targets[0])] = T('listvar', unparse(n_.targets[0]))
+    I = MI(repo, unroll=1, inline_depth=0)
+    I.fi_stack = [mg]
+    I._pending = []
+    outs = [(k, v, st) for k, v, st in I.block(lp.body, proto.State(env)) if k == 'fall']
+    merge_off = merge_next = None
+    if outs:
+        st = outs[0][2]
+        shifted = st.env.get(arrn)
+        rec = [e for e in st.trace if e[0] == 'append' and e[2] == 'channel_offsets']
+        # which accumulator is added to the map?
+        for o in offs:
+            nfb = NF({ARR: Lin.atom(('m',)), T('acc', o): Lin.atom(('o',))})
+            if equal(nfb(shifted), Lin.atom(('m',)) + Lin.atom(('o',))):
+                merge_off = o
+                merge_next = nfb(st.env.get(o))
+    if merge_off is None:
+        ctx.undecided(rule, mg, 'the merger no longer shifts the channel map by an accumulated offset')
+    else:
+        ctx.holds(rule, mg, 'merger: map of probe k is shifted by o_k, o_0 = 0, o_{k+1} = %s' % merge_next, 'write_channel_data')
+        # exporter
+        loops = co.nodes(ast.For)
+        lp2 = loops[0] if loops else None
+        if lp2 is None:
+            ctx.undecided(rule, co, 'no probe loop in make_channel_objects')
+        else:
+            ctx.check(unparse(lp2.iter).replace(' ', '') in ('np.unique(self.model.channel_probes)', 'sorted(set(self.model.channel_probes))', 'self.model.probes'), rule, co, lp2.iter,
+                      'probes are visited in increasing label order (the order in which the merger accumulated the offsets)', 'probes are not visited in increasing label order')
+            upd = {unparse(a.target if isinstance(a, ast.AugAssign) else a.targets[0]) for a in ast.walk(lp2) if isinstance(a, (ast.Assign, ast.AugAssign))}
+            accs = [unparse(a.targets[0]) for a in co.body() if isinstance(a, ast.Assign) and isinstance(a.targets[0], ast.Name) and unparse(a.targets[0]) in upd
+                    and a.lineno < lp2.lineno and unparse(a.targets[0]) != 'rawInd']
+            env2 = {co.params[0]: me, unparse(lp2.target): T('k')}
+            for a_ in accs:
+                env2[a_] = T('acc', a_)
+            env2['rawInd'] = T('rawInd')
+
+            class W(MI):
+                def ev_Subscript(self, e, st):
+                    t = unparse(e).replace(' ', '')
+                    if t == 'self.model.channel_mapping[ind]':
+                        return [(T('MERGED'), st)]
+                    return super().ev_Subscript(e, st)
+            I2 = W(repo, unroll=1, inline_depth=0)
+            I2.fi_stack = [co]
+            I2._pending = []
+            outs2 = [(k, v, st) for k, v, st in I2.block(lp2.body, proto.State(env2)) if k == 'fall']
+            if not outs2 or not accs:
+                ctx.undecided(rule, co, 'loop body of make_channel_objects not walked')
+            else:
+                st2 = outs2[0][2]
+                acc = accs[0]
+                nfb = NF({T('MERGED'): Lin.atom(('m',)) + Lin.atom(('o',)), T('acc', acc): Lin.atom(('o',))})      # induction hypothesis: c_k = o_k, block = m_k + o_k
+                sets = [e for e in st2.trace if e[0] == 'setitem' and e[1] == T('rawInd')]
+                if not sets:
+                    ctx.undecided(rule, co, 'no store into rawInd in the probe loop')
+                else:
+                    val = nfb(sets[0][3])
+                    ctx.check(equal(val, Lin.atom(('m',))), rule, co, 'rawInd block', 'rawInd of probe k = merged map - o_k = original map of probe k',
+                              'rawInd of probe k is %s under the hypothesis (merged block = m + o, subtracted offset = o): not the original map m' % val)
+                nxt = nfb(st2.env.get(acc))
+                ctx.check(equal(nxt, merge_next), rule, co, 'offset recurrence', 'inductive step: the offset for the next probe equals the merger\'s next offset (%s)' % merge_next,
+                          'after probe k the exporter subtracts %s for the next probe, the merger added %s: from the third probe on rawInd is wrong' % (nxt, merge_next))
+                init = [a for a in co.body() if isinstance(a, ast.Assign) and unparse(a.targets[0]) == acc]
+                ctx.check(bool(init) and const_value(init[0].value) == 0 and not isinstance(const_value(init[0].value), bool), rule, co, init[0] if init else 'offset start', 'both offsets start at 0',
+                          'the exporter\'s offset starts at `%s`, the merger\'s at 0: channels.rawInd of the first (or only) probe is not its channel map' % (unparse(init[0].value) if init else '?'))
+    S, saved4, co_ = alf_run(repo, 'make_channel_objects')
+    a = saved4.get('channels.rawInd.npy', (None, None))[1]
+    ctx.check(isinstance(a, Arr) and a.axes == (Chan,), rule, co, 'channels.rawInd axis', 'channels.rawInd has one entry per channel', 'channels.rawInd is %s' % a)
+    for r in S.reports:
+        ctx.violated(rule, r.fi, r.node, '[make_channel_objects] %s' % r.msg)
+
+
+def m1_model_side(ctx):
+    """The exporter writes the model's cluster waveforms (sparse_clusters, built by cluster_waveforms / get_cluster_mean_waveforms): the obligations on
+    their construction (C08.A0, A2, A3) are prerequisites of `clusters.waveforms = waveform of the cluster on the listed channels`."""
+    from vlib import report
+    from obligations import C08
+    sub = report.Ctx('C08', ctx.repo, ctx.tier, ctx.seed)
+    C08.run(sub)
+    rel = [o for o in sub.obs if o.rule in ('C08.A0', 'C08.A2', 'C08.A3')]
+    bad = [o for o in rel if o.status == 'violated']
+    for o in bad:
+        ctx.obs.append(report.Ob('C14.M1', o.where, 'violated', 'the exported cluster waveforms are the model\'s cluster waveforms, and their construction is wrong (%s): %s' % (o.rule, o.detail),
+                                 o.construct, o.line))
+    if not bad:
+        ctx.holds('C14.M1', ALF + ':EphysAlfCreator', 'model-side construction of the exported cluster waveforms: %d obligations of C08.A0/A2/A3 hold (%d undecided)' %
+                  (len([o for o in rel if o.status == 'holds']), len([o for o in rel if o.status == 'undecided'])), 'sparse_clusters provenance')
 
 
 def run(ctx):
@@ -139,86 +246,8 @@ def run(ctx):
     ctx.check(bool(nand), 'C14.U2', md, nand[0] if nand else 'make_depths', 'depths of ids without spikes are NaN', 'depths of empty ids are not blanked')
     br = [i for i in md.nodes(ast.If) if unparse(i.test).replace(' ', '') == 'self.model.sparse_featuresisNone']
     ctx.check(bool(br), 'C14.U2', md, br[0].test if br else 'make_depths', 'the cluster depth is used for spikes exactly when no features exist', 'the fallback to cluster depths is not conditioned on the absence of features')
-    # ---------------------------------------------------------------- S1 rawInd: inverse of the merger's offsets
-    co = repo.lookup_method(cls, 'make_channel_objects')
-    mg = repo.func(MG, 'Merger.write_channel_data')
-    # merger recurrence
-    lp = mg.nodes(ast.For)[0]
-    ind, arrn = (unparse(x) for x in lp.target.elts)
-    me = T('self')
-    ARR, O = T('MK'), T('OK')
-    offs = [unparse(a.targets[0]) for a in mg.body() if isinstance(a, ast.Assign) and const_value(a.value) == 0 and isinstance(a.targets[0], ast.Name)]
-    env = {mg.params[0]: me, arrn: ARR, ind: T('k')}
-    for o in offs:
-        env[o] = T('acc', o)
-    for n_ in [a for a in mg.body() if isinstance(a, ast.Assign) and isinstance(a.value, ast.List) and isinstance(a.targets[0], ast.Name)]:
-        env[unparse(n_.targets[0])] = T('listvar', unparse(n_.targets[0]))
-    I = MI(repo, unroll=1, inline_depth=0)
-    I.fi_stack = [mg]
-    I._pending = []
-    outs = [(k, v, st) for k, v, st in I.block(lp.body, proto.State(env)) if k == 'fall']
-    merge_off = merge_next = None
-    if outs:
-        st = outs[0][2]
-        shifted = st.env.get(arrn)
-        rec = [e for e in st.trace if e[0] == 'append' and e[2] == 'channel_offsets']
-        # which accumulator is added to the map?
-        for o in offs:
-            nfb = NF({ARR: Lin.atom(('m',)), T('acc', o): Lin.atom(('o',))})
-            if equal(nfb(shifted), Lin.atom(('m',)) + Lin.atom(('o',))):
-                merge_off = o
-                merge_next = nfb(st.env.get(o))
-    if merge_off is None:
-        ctx.undecided('C14.S1', mg, 'the merger no longer shifts the channel map by an accumulated offset')
-    else:
-        ctx.holds('C14.S1', mg, 'merger: map of probe k is shifted by o_k, o_0 = 0, o_{k+1} = %s' % merge_next, 'write_channel_data')
-        # exporter
-        loops = co.nodes(ast.For)
-        lp2 = loops[0] if loops else None
-        if lp2 is None:
-            ctx.undecided('C14.S1', co, 'no probe loop in make_channel_objects')
-        else:
-            ctx.check(unparse(lp2.iter).replace(' ', '') in ('np.unique(self.model.channel_probes)', 'sorted(set(self.model.channel_probes))', 'self.model.probes'), 'C14.S1', co, lp2.iter,
-                      'probes are visited in increasing label order (the order in which the merger accumulated the offsets)', 'probes are not visited in increasing label order')
-            accs = [unparse(a.targets[0]) for a in co.body() if isinstance(a, ast.Assign) and const_value(a.value) == 0 and isinstance(a.targets[0], ast.Name)]
-            env2 = {co.params[0]: me, unparse(lp2.target): T('k')}
-            for a_ in accs:
-                env2[a_] = T('acc', a_)
-            env2['rawInd'] = T('rawInd')
-
-            class W(MI):
-                def ev_Subscript(self, e, st):
-                    t = unparse(e).replace(' ', '')
-                    if t == 'self.model.channel_mapping[ind]':
-                        return [(T('MERGED'), st)]
-                    return super().ev_Subscript(e, st)
-            I2 = W(repo, unroll=1, inline_depth=0)
-            I2.fi_stack = [co]
-            I2._pending = []
-            outs2 = [(k, v, st) for k, v, st in I2.block(lp2.body, proto.State(env2)) if k == 'fall']
-            if not outs2 or not accs:
-                ctx.undecided('C14.S1', co, 'loop body of make_channel_objects not walked')
-            else:
-                st2 = outs2[0][2]
-                acc = accs[0]
-                nfb = NF({T('MERGED'): Lin.atom(('m',)) + Lin.atom(('o',)), T('acc', acc): Lin.atom(('o',))})      # induction hypothesis: c_k = o_k, block = m_k + o_k
-                sets = [e for e in st2.trace if e[0] == 'setitem' and e[1] == T('rawInd')]
-                if not sets:
-                    ctx.undecided('C14.S1', co, 'no store into rawInd in the probe loop')
-                else:
-                    val = nfb(sets[0][3])
-                    ctx.check(equal(val, Lin.atom(('m',))), 'C14.S1', co, 'rawInd block', 'rawInd of probe k = merged map - o_k = original map of probe k',
-                              'rawInd of probe k is %s under the hypothesis (merged block = m + o, subtracted offset = o): not the original map m' % val)
-                nxt = nfb(st2.env.get(acc))
-                ctx.check(equal(nxt, merge_next), 'C14.S1', co, 'offset recurrence', 'inductive step: the offset for the next probe equals the merger\'s next offset (%s)' % merge_next,
-                          'after probe k the exporter subtracts %s for the next probe, the merger added %s: from the third probe on rawInd is wrong' % (nxt, merge_next))
-                init = [a for a in co.body() if isinstance(a, ast.Assign) and unparse(a.targets[0]) == acc]
-                ctx.check(bool(init) and const_value(init[0].value) == 0, 'C14.S1', co, 'offset start', 'both offsets start at 0', 'the exporter\'s offset does not start at 0')
-    S, saved4, co_ = alf_run(repo, 'make_channel_objects')
-    a = saved4.get('channels.rawInd.npy', (None, None))[1]
-    ctx.check(isinstance(a, Arr) and a.axes == (Chan,), 'C14.S1', co, 'channels.rawInd axis', 'channels.rawInd has one entry per channel', 'channels.rawInd is %s' % a)
-    for r in S.reports:
-        ctx.violated('C14.S1', r.fi, r.node, '[make_channel_objects] %s' % r.msg)
+    s1_rawind(ctx)
+    m1_model_side(ctx)
 
 
 LEVEL_TEXT = ('Static typing of the ALF value exports (dimension with unit factor, milliseconds, micrometres on the y coordinate, index spaces of '
